@@ -30,6 +30,10 @@ DEFECT_SCRIPTS = [
 # Model-checking configs: name -> (module, cfg, workers, timeout_s) per tier
 # ---------------------------------------------------------------------------------------------
 MC = {
+    "Small": {
+        "quick": ("MCGriddle", "MCSmall", 6, 900),
+        "thorough": ("MCGriddle", "MCSmall6", 12, 7200),
+    },
     "CountR8": {
         "quick": ("MCCount", "MCCountR8_64", 8, 900),
         "thorough": ("MCCount", "MCCountR8", 12, 3600),
@@ -39,18 +43,18 @@ MC = {
 ALL_MAP = ["core_heap", "core_plain", "core_zst", "rel_heap", "defects"]
 
 PROPS = {
-    "C01": dict(suites=["core_heap", "core_plain", "core_zst", "rel_heap", "rel_plain", "defects"], mc=["CountR8"]),
+    "C01": dict(suites=["core_heap", "core_plain", "core_zst", "rel_heap", "rel_plain", "defects"], mc=["Small", "CountR8"]),
     "C02": dict(suites=["core_plain", "rel_plain", "core_heap", "defects"], mc=["CountR8"]),
-    "C03": dict(suites=["core_plain", "core_heap", "rel_plain", "set_heap", "defects"], mc=["CountR8"]),
-    "C04": dict(suites=["core_plain", "rel_plain", "limits_dbg", "limits_rel", "two_heap", "defects"], mc=["CountR8"]),
-    "C05": dict(suites=["core_heap", "rel_heap", "core_zst", "set_heap", "set_zst", "two_heap", "defects"], mc=["CountR8"]),
-    "C06": dict(suites=["core_heap", "rel_heap", "two_heap", "set_heap", "set_two", "defects"], mc=[]),
-    "C08": dict(suites=["core_heap", "rel_heap", "core_plain", "set_heap", "core_zst"], mc=[]),
-    "C09": dict(suites=["core_heap", "rel_heap", "core_plain", "set_heap", "set_zst"], mc=[]),
+    "C03": dict(suites=["core_plain", "core_heap", "rel_plain", "set_heap", "defects"], mc=["Small", "CountR8"]),
+    "C04": dict(suites=["core_plain", "rel_plain", "limits_dbg", "limits_rel", "two_heap", "defects"], mc=["Small", "CountR8"]),
+    "C05": dict(suites=["core_heap", "rel_heap", "core_zst", "set_heap", "set_zst", "two_heap", "defects"], mc=["Small", "CountR8"]),
+    "C06": dict(suites=["core_heap", "rel_heap", "two_heap", "set_heap", "set_two", "defects"], mc=["Small"]),
+    "C08": dict(suites=["core_heap", "rel_heap", "core_plain", "set_heap", "core_zst"], mc=["Small"]),
+    "C09": dict(suites=["core_heap", "rel_heap", "core_plain", "set_heap", "set_zst"], mc=["Small"]),
     "C10": dict(suites=["limits_dbg", "limits_rel", "core_plain", "rel_plain", "set_heap", "defects"], mc=["CountR8"]),
     "C11": dict(suites=["two_heap", "two_plain_rel", "set_two", "defects"], mc=[]),
-    "C12": dict(suites=["core_heap", "rel_heap", "core_plain", "core_zst", "defects"], mc=[]),
-    "C13": dict(suites=["set_heap", "set_two", "set_zst"], mc=[]),
+    "C12": dict(suites=["core_heap", "rel_heap", "core_plain", "core_zst", "defects"], mc=["Small"]),
+    "C13": dict(suites=["set_heap", "set_two", "set_zst"], mc=["Small"]),
 }
 
 LEVEL = {p: "model_checking" for p in PROPS}
